@@ -45,10 +45,10 @@ Fixpoint set_nth {A} (l : list A) (n : nat) (v : A) : list A :=
   | a :: r, S k => a :: set_nth r k v
   end.
 
-(* helpers.go calcSizeFromValue on a 64-bit int: 0 -> 1; negative -> 0; else the bit length,
-   except that 1<<63 wraps, so values >= 2^62 give 64 *)
+(* helpers.go calcSizeFromValue: 0 -> 1; otherwise the bit length of the value read as uint64
+   (a negative int has its top bit set: 64) *)
 Definition calc_size (v : Z) : Z :=
-  if v =? 0 then 1 else if v <? 0 then 0 else if v <? 2 ^ 62 then Z.log2 v + 1 else 64.
+  if v =? 0 then 1 else if v <? 0 then 64 else Z.log2 v + 1.
 
 (* SignalEnum.sizeFromMaxIndex *)
 Definition esize_of (mn mx : Z) : Z := let c := calc_size mx in if c <? mn then mn else c.
@@ -340,6 +340,7 @@ Definition step_compact (s : state) (m : nat) : state * result :=
 Definition step_resize (s : state) (m : nat) (n : Z) : state * result :=
   if n <? 0 then (s, RErr Negative)
   else if gbytes s m =? n then (s, ROk)
+  else if 2 ^ 60 - 1 <? n then (s, RErr TooBig)          (* n * 8 must fit a 64-bit int *)
   else match verify_resize (sz s) (rel s) (glsize s m) (glay s m) (n * 8) with
        | Some c => (s, RErr c)
        | None => (set_gbytes (set_glsize s (upd (glsize s) m (n * 8))) (upd (gbytes s) m n), ROk)
